@@ -1,6 +1,6 @@
 #!/usr/bin/env python3
 """Imports the output of an independent seed agent (/tmp/seed/<ID>-out/mN) into /verif/seeded/<ID>-mN."""
-import json, os, shutil, glob, sys
+import json, os, re, shutil, glob, sys
 def imp(ID):
     rnd = ''
     if ':' in ID:
@@ -16,6 +16,10 @@ def imp(ID):
         src = [f for f in os.listdir(m) if f.endswith('_test.go')]
         shutil.copy(m + '/' + src[0], d + '/' + demo)
         meta['origin'] = 'independent sub-agent given only the property text and a scratch worktree (nothing from /verif)' + ('; round %s: also given the titles of the earlier changes to avoid repeating them' % rnd if rnd else '')
+        if ID.startswith('X'):
+            meta['origin'] = 'independent sub-agent (cross-cutting round) given the twenty property statements, the titles of earlier seeded changes, a focus and a scratch worktree (nothing from /verif)'
+        # the demonstration must run in the worktree made here, not in the agent's
+        meta['demo_cmd'] = re.sub(r'cd /tmp/seed/\w+ *(&&|;) *', '', meta.get('demo_cmd', ''))
         meta.setdefault('checks_expected_to_fire', [meta['property']])
         json.dump(meta, open(d + '/meta.json', 'w'), indent=1)
         print('imported', name, '-', meta.get('title'))
